@@ -21,7 +21,7 @@ static Profile profile_for(const std::string &p) { Profile f;
   else if (p == "C15") { add({OP_INIT}, 3); add({OP_SELECT}, 1); add({OP_EVAL}, 14); add({OP_SET}, 1); f.fresh = false; }
   else if (p == "C17") { add(cops, 2); add({OP_INIT, OP_SELECT, OP_SET, OP_SETVEC, OP_PURGE, OP_INITP}, 1); f.fixtures = true; f.fresh = false; f.cface = true; }
   else if (p == "C16") { add(regs, 2); add({OP_SET, OP_GET, OP_EVAL, OP_SETVEC, OP_CSET, OP_CINIT, OP_PURGE}, 1); add({OP_FATAL}, 6); f.audit = false; f.fresh = false; }
-  else { add(regs); add(param); add(cops); add({OP_EVAL}, 4); add({OP_FATAL}, 1); add({OP_SETVEC, OP_CSETARR, OP_CGETARR, OP_GETVEC}, 2); f.fixtures = false; }    // "all": used by the sanitizer runs
+  else { add(regs); add(param); add(cops); add({OP_EVAL}, 4); add({OP_FATAL}, 1); add({OP_SETVEC, OP_CSETARR, OP_CGETARR, OP_GETVEC}, 2); f.fixtures = (p == "C19"); }    // "all": used by the sanitizer runs; C19 quantifies over every API history, the two self-test fixtures included
   return f; }
 
 
